@@ -29,11 +29,11 @@ def run_impl(lines):
 
 
 def model_line(l):
-    return "0 |" if l.startswith(("101 ", "102 ", "104 ", "105 ", "107 ")) else l
+    return "0 |" if l.startswith(("101 ", "102 ", "104 ", "105 ", "107 ", "109 ")) else l
 
 
 def compare(l, impl_rows, model_rows):
-    if l.startswith(("101 ", "102 ", "104 ", "105 ", "107 ")):
+    if l.startswith(("101 ", "102 ", "104 ", "105 ", "107 ", "109 ")):
         return True          # behavioural direct-vs-opaque runs: decided by the implementation-side monitor alone
     return impl_rows == model_rows
 
